@@ -15,7 +15,8 @@ CHARS = list("a01'\"\\/*#.+-(){}; \n@")
 
 import re
 
-_DIRECTIVE_FILE = re.compile(r'^[ \t]*#[ \t]*(?:line[ \t]+)?\d+[ \t]+"([^"\n]*)"', re.M)
+# '#' need not start the line for the lexer, and no blank is needed before the name ('#0""')
+_DIRECTIVE_FILE = re.compile(r'#[ \t]*(?:line[ \t]*)?\d+[ \t]*"([^"\n]*)"')
 
 
 def oracle(out, filename, text=None):
@@ -61,7 +62,7 @@ def _char_work(task):
                 hist[k] = hist.get(k, 0) + 1
                 if out[0] == "ok" or (out[0] == "perr" and "Illegal" not in out[1]):
                     nontrivial += 1
-                sig = oracle(out, filename)
+                sig = oracle(out, filename, s)
                 if sig is not None:
                     fails.append((sig, {"text": s, "filename": filename}, out[-1]))
     return n, fails, hist, nontrivial
